@@ -199,7 +199,10 @@ func lightRoot() string {
 	return d
 }
 
-func newLight() (backend, error) {
+func newLight(dirMax int) (backend, error) {
+	if dirMax <= 0 {
+		dirMax = 100
+	}
 	l := &light{dir: filepath.Join(lightRoot(), fmt.Sprintf("light%d-%d", os.Getpid(), lightCounter.Add(1)))}
 	root := filepath.Join(l.dir, "root0")
 	if err := os.MkdirAll(root, 0o755); err != nil {
@@ -218,7 +221,7 @@ func newLight() (backend, error) {
 	gen := generator.New()
 	coreUC := core.New(fRepo)
 	l.pool = wpool.New(wpool.Options{NumWorkers: 2, SendDuration: time.Millisecond})
-	dirUC := dir.New(100, dRepo, gen)
+	dirUC := dir.New(uint64(dirMax), dRepo, gen)
 	l.clean = cleaner.New(coreUC, cRepo, cfRepo, kv, dRepo, fRepo, l.pool, txRepo)
 	l.storeUC = store.New(dirUC, cRepo, cfRepo, coreUC, txRepo, gen, rand.New(rand.NewPCG(1, 2)))
 	l.txUC = transaction.New(l.clean, coreUC, txRepo, gen)
